@@ -506,6 +506,12 @@ def remove_tensor(expr: e.Expr, t_name: str) -> dict:
             if (idx_key := s.space_and_spin) not in used_indices:
                 used_indices[idx_key] = set()
             used_indices[idx_key].add(s.name)
+        # - the names of the target indices are not available either, even
+        #   if they do not occur in the current term
+        for idx_key, names in target_indices.items():
+            if idx_key not in used_indices:
+                used_indices[idx_key] = set()
+            used_indices[idx_key].update(names)
 
         if tensor_target_indices:
             # print("Found target indices on tensor to remove:",
